@@ -439,7 +439,8 @@ func (sc *c11Scenario) laws(s *simrt.Sim, add func(clause, fp, detail string)) {
 		if got != "f(<nil>)" || calls != 1 {
 			add("law", "left-identity-with-nil", fmt.Sprintf("Just(nil).FlatMap(f).Eval() = %v with f called %d times; f(nil).Eval() = f(<nil>)", got, calls))
 		}
-		for _, withHandlers := range []bool{false, true} {
+		// (first with a handler of its own, then - a new Just(nil) - without: two values are two objects)
+		for _, withHandlers := range []bool{true, false} {
 			nexts, gotNil := 0, false
 			mn := fpgo.MonadIO.Just(nil)
 			var hN *fpgo.HandlerDef
